@@ -373,8 +373,11 @@ use private::SealedItem;
 pub enum Bech32mZip316 {}
 impl Checksum for Bech32mZip316 {
     type MidstateRepr = <Bech32m as Checksum>::MidstateRepr;
-    // l^MAX from ZIP 316.
-    const CODE_LENGTH: usize = 4194368;
+    // `CODE_LENGTH` bounds the length in characters of the whole string. l^MAX from ZIP 316
+    // (4194368) bounds the length in bytes of the F4Jumbled message, which is encoded at
+    // 5 bits per character and surrounded by the human-readable part (at most 83
+    // characters), the separator and the checksum.
+    const CODE_LENGTH: usize = (4194368 * 8_usize).div_ceil(5) + 83 + 1 + Bech32m::CHECKSUM_LENGTH;
     const CHECKSUM_LENGTH: usize = Bech32m::CHECKSUM_LENGTH;
     const GENERATOR_SH: [u32; 5] = Bech32m::GENERATOR_SH;
     const TARGET_RESIDUE: u32 = Bech32m::TARGET_RESIDUE;
